@@ -10,8 +10,11 @@ C02-F1 (A5) monotone, guarded writes: in both resolvers every elevation write is
 C02-F2 (A5) on tree-shaped neighbourhoods (star + chain around a base level, chain below an
         outlet) the result is exactly max(input, successor(parent's result)): raised to the spill
         level plus one increment and not more, untouched where the terrain already drains.
-Not decided: the spill level on general graphs (correctness of the priority order / of the
-spanning tree), agreement between resolver variants.
+C02-F4 (A5, bounded) priority flood on every connected graph of <= 3 (thorough: 4) nodes: the result
+        lies between the minimax spill level (brute force) and that level plus one increment per
+        node; every reached node keeps a strictly lower unmasked neighbour.
+Not decided: the spill level on larger graphs, the spanning-tree resolvers on general graphs,
+agreement between resolver variants.
 """
 import math
 
@@ -23,6 +26,94 @@ from .C01 import check_pflood, MST
 
 UNITS = ["raster_queen", "profile", "trimesh"]
 INF = float("inf")
+
+
+def small_connected_graphs(n):
+    import itertools
+    pairs = list(itertools.combinations(range(n), 2))
+    for k in range(n - 1, len(pairs) + 1):
+        for es in itertools.combinations(pairs, k):
+            adj = {i: [] for i in range(n)}
+            for a, b in es:
+                adj[a].append(b)
+                adj[b].append(a)
+            seen, st = {0}, [0]
+            while st:
+                u = st.pop()
+                for v in adj[u]:
+                    if v not in seen:
+                        seen.add(v)
+                        st.append(v)
+            if len(seen) == n:
+                yield es, adj
+
+
+def minimax_rule(chk, uname, pf):
+    """C02-F4 / bounded: the priority-flood fill interpreted on every connected graph of <= 3 (quick) /
+    4 (thorough) nodes, every assignment of elevations from a small set of levels (ties, adjacent
+    doubles), every non-empty base-level set, without and with one masked node; the result is compared
+    with the minimax path level computed by brute force here"""
+    import itertools
+    thorough = chk.tier == "thorough"
+    n_sc = 0
+    nbad = 0
+    for n in range(2, (4 if thorough else 3) + 1):
+        # 4 nodes: three levels, no mask (46k scenarios); <= 3 nodes: adjacent doubles and masks as well
+        levels = [0.0, 1.0, math.nextafter(1.0, INF), 2.0] if (thorough and n <= 3) else [0.0, 1.0, 2.0]
+        for es, adj in small_connected_graphs(n):
+            for elev in itertools.product(levels, repeat=n):
+                for bmask in range(1, 1 << n):
+                    base = [i for i in range(n) if bmask >> i & 1]
+                    mask_opts = [None] + ([i for i in range(n) if i not in base] if n <= 3 else [])
+                    for mk in mask_opts:
+                        masked = [i == mk for i in range(n)]
+                        n_sc += 1
+                        w = sinks.SinkWorld(list(elev), adj, masked, base)
+                        exc = sinks.run_fn(pf, w, None, [w.graph, w.elev])
+                        fin = list(w.elev)
+                        bad = []
+                        if exc:
+                            bad.append("threw %s" % exc)
+                        else:
+                            # minimax level by relaxation over unmasked nodes
+                            M = {b: elev[b] for b in base}
+                            changed = True
+                            while changed:
+                                changed = False
+                                for u in list(M):
+                                    for v in adj[u]:
+                                        if masked[v] or v in base:
+                                            continue
+                                        cand = max(M[u], elev[v])
+                                        if v not in M or cand < M[v]:
+                                            M[v] = cand
+                                            changed = True
+                            for v in range(n):
+                                if masked[v] or v in base or v not in M:
+                                    if fin[v] != elev[v]:
+                                        bad.append("node %d (%s) changed from %r to %r" % (
+                                            v, "masked" if masked[v] else "base level" if v in base else "unreachable",
+                                            elev[v], fin[v]))
+                                    continue
+                                hi = M[v]
+                                for _ in range(n):
+                                    hi = math.nextafter(hi, INF)
+                                if fin[v] < elev[v]:
+                                    bad.append("node %d lowered" % v)
+                                if not (M[v] <= fin[v] <= hi):
+                                    bad.append("node %d ends at %.17g, its spill level is %.17g (margin: %d increments)"
+                                               % (v, fin[v], M[v], n))
+                                if not any((not masked[u]) and fin[u] < fin[v] for u in adj[v]):
+                                    bad.append("node %d (%.17g) has no strictly lower unmasked neighbour in the result: "
+                                               "a router cannot drain it" % (v, fin[v]))
+                        if bad:
+                            nbad += 1
+                        if not bad or nbad <= 6:
+                            chk.ob("C02-F4", "[%s] pflood on graph %s, elevation %s, base levels %s%s" % (
+                                uname, list(es), list(elev), base, "" if mk is None else ", node %d masked" % mk),
+                                not bad, where=pf.ploc, function=pf.bn, construct="pflood-minimax",
+                                detail="; ".join(bad[:2]), sample=(n_sc % 397 == 1), extra={"unit": uname})
+    return n_sc
 
 
 def run(db, chk):
@@ -37,6 +128,10 @@ def run(db, chk):
                        "agreement of priority-flood, Kruskal and Boruvka variants within the margin"]
     chk.rule("C02-F1", "every elevation write raises the value; masked nodes, base levels and "
              "outlets are never written", min_instances=100)
+    chk.rule("C02-F4", "bounded: priority flood on every connected graph of <= 3 (thorough 4) nodes, all elevation "
+             "assignments from 3 (4) levels, all base-level sets, without / with one masked node: every reached "
+             "node ends between its minimax spill level and that level plus one increment per node, keeps a "
+             "strictly lower unmasked neighbour, and nothing else changes", min_instances=500)
     chk.rule("C02-F2", "on tree-shaped neighbourhoods the result equals max(input, successor of "
              "the parent's result)", min_instances=100)
     n_sc = 0
@@ -68,6 +163,9 @@ def run(db, chk):
                     chk.ob(rid, lab, not b, where=pf.ploc, function=pf.bn,
                            construct="pflood-write" if i == 0 else "pflood-level", detail="; ".join(b[:3]),
                            sample=(n_sc % 131 == i), extra={"unit": uname})
+        # ---- F4: priority flood on every small graph (bounded): minimax level within the margin ----
+        if uname == UNITS[0] or chk.tier == "thorough":
+            n_sc += minimax_rule(chk, uname, pf)
         for E in (1.0, 0.0, -2.5):
             for ca in sinks.CLASSES:
                 for cb in sinks.CLASSES:
